@@ -10,7 +10,7 @@ from ..core import Ctx
 from ..effects import STORAGE_READS
 from ..flow import ALL, find_path, names_in
 from ..model import AnalysisError, FunctionInfo, dotted, norm_text
-from .common import (facts_at, judged_in_callers, package_functions, resolve_value, known_null_call, edge_target, guarded_names, handler_exits, handler_nodes, hint_value, in_handler, kwarg, path_arg,
+from .common import (effective_returns, facts_at, judged_in_callers, package_functions, resolve_value, known_null_call, edge_target, guarded_names, handler_exits, handler_nodes, hint_value, in_handler, kwarg, path_arg,
                      reachable_from, try_body_calls)
 
 EXPLANATION = (
@@ -26,7 +26,8 @@ EXPLANATION = (
     " (R10) the CAS path's 'pointer moved' conflict needs a parsed pointer; (R11) the regex's version group is int()-converted before any other use (no lexicographic v9 > v10); (R12) no truthiness test of a version number (v0 is a version); (R13) the new metadata file is numbered resolved version + 1 and the constant start value is guarded by `is None`."
     ' (R14) who-may-delete census (C09.R3); (R15) every pointer write publishes a name freshly allocated by _new_metadata_filename in the same function (the pointer never moves to an old version).'
     ' (R16) every backend operation does its work and both listings keep every entry (C20.R8).'
-    " (R19) only the two committers write the pointer (write-namespace census, C09.R1): no lock-free 'repair' of the hint.")
+    " (R19) only the two committers write the pointer (write-namespace census, C09.R1): no lock-free 'repair' of the hint."
+    ' R11 also forbids ordering over text (file names, regex groups, tuples starting with one); R15 requires the published content to be the bare name; (R20) the local mtime is returned untruncated.')
 NOT_DECIDED = ("byte-level pointer grammar x histories at run time; orphans left by a crash (no exception path exists to "
                "clean them - format limitation)")
 
@@ -78,6 +79,7 @@ def check(ctx: Ctx) -> None:
     # write it - a "repair" from a lock-free reader overwrites a commit that landed after the reader's listing
     from .c09 import r1_fresh_names
     r1_fresh_names(ctx, "C10.R19")
+    mtime_is_untruncated(ctx)
 
 
 def _fold_digits(ctx: Ctx, f: FunctionInfo, e: ast.AST, at: int, depth: int = 0) -> Optional[str]:
@@ -409,6 +411,101 @@ def r11(ctx: Ctx, rid: str = "C10.R11") -> None:
                        text=norm_text(x), line=x.lineno)
     if n_sites < 2:
         raise AnalysisError(f"only {n_sites} uses of the metadata-file regex's version group found")
+    # ... and nothing TEXTUAL decides which candidate is the latest: no `<` / `>` / max / min / sorted over file names, regex
+    # groups or tuples that start with one ('v9-...' > 'v10-...')
+    for m in sorted((x for x in package_functions(ctx, ["metadata_manager"]) if x.parent is None), key=lambda x: x.qname):
+        if "_METADATA_FILE_RE" not in norm_text(m.node)[:100000] and not any(
+                isinstance(x, ast.Name) and x.id == "_METADATA_FILE_RE" for x in ast.walk(m.node)):
+            continue
+        g = ctx.cfg(m)
+        rd = ctx.rd(m)
+
+        def is_text(e: Optional[ast.AST], at: int, depth: int = 0) -> bool:
+            if e is None or depth > 6:
+                return False
+            if isinstance(e, ast.Constant):
+                return isinstance(e.value, str)
+            if isinstance(e, ast.JoinedStr):
+                return True
+            if isinstance(e, ast.Call):
+                fn = dotted(e.func) or (e.func.attr if isinstance(e.func, ast.Attribute) else "")
+                leaf = fn.split(".")[-1]
+                if leaf in ("int", "float", "len", "get_modified_time", "getmtime", "time"):
+                    return False
+                if leaf in ("replace", "rsplit", "split", "strip", "lstrip", "rstrip", "lower", "upper", "group", "basename", "join", "format",
+                            "str", "decode", "rpartition", "partition", "removeprefix", "removesuffix"):
+                    return True
+                return False
+            if isinstance(e, ast.Subscript):
+                if isinstance(e.value, ast.Name) and isinstance(e.slice, ast.Constant) and isinstance(e.slice.value, int):
+                    defs = rd.reaching(at, e.value.id)
+                    tup = [g.nodes[d].ast.value for d in defs if d != g.entry and isinstance(g.nodes[d].ast, ast.Assign)
+                           and isinstance(g.nodes[d].ast.value, ast.Tuple)]
+                    if tup and len(tup) == len([d for d in defs if d != g.entry and not (isinstance(g.nodes[d].ast, ast.Assign)
+                                                and isinstance(g.nodes[d].ast.value, ast.Constant))]):
+                        i = e.slice.value
+                        return any(-len(t.elts) <= i < len(t.elts) and is_text(t.elts[i], at, depth + 1) for t in tup)
+                return is_text(e.value, at, depth + 1)
+            if isinstance(e, ast.Name):
+                defs = rd.reaching(at, e.id)
+                for d in defs:
+                    dn = g.nodes[d]
+                    if d == g.entry:
+                        continue
+                    if dn.kind == "loop" and isinstance(dn.ast, ast.For):
+                        return True  # an element of the listing
+                    if isinstance(dn.ast, ast.Assign) and len(dn.ast.targets) == 1 and isinstance(dn.ast.targets[0], ast.Name) \
+                            and is_text(dn.ast.value, d, depth + 1):
+                        return True
+                    if isinstance(dn.ast, ast.For):
+                        return True
+                return False
+            if isinstance(e, ast.Tuple):
+                return bool(e.elts) and is_text(e.elts[0], at, depth + 1)
+            if isinstance(e, ast.BinOp) and isinstance(e.op, ast.Add):
+                return is_text(e.left, at, depth + 1) or is_text(e.right, at, depth + 1)
+            return False
+
+        bad = []
+        for n in g.nodes:
+            if n.ast is None or n.id not in g.reachable():
+                continue
+            exprs = [n.ast] if n.kind == "branch" else ([n.ast] if n.kind in ("stmt", "return") else [])
+            for root in exprs:
+                for x in ast.walk(root):
+                    if isinstance(x, ast.Compare) and any(isinstance(o, (ast.Lt, ast.Gt, ast.LtE, ast.GtE)) for o in x.ops):
+                        if any(is_text(y, n.id) for y in [x.left] + list(x.comparators)):
+                            bad.append((n, norm_text(x)[:60]))
+                    if isinstance(x, ast.Call) and isinstance(x.func, ast.Name) and x.func.id in ("max", "min", "sorted") and x.args:
+                        a0 = x.args[0]
+                        keyf = next((k.value for k in x.keywords if k.arg == "key"), None)
+                        elt = a0.elt if isinstance(a0, (ast.GeneratorExp, ast.ListComp)) else None
+                        if keyf is not None and isinstance(keyf, ast.Lambda):
+                            if is_text(keyf.body, n.id) or (isinstance(keyf.body, ast.Tuple) and keyf.body.elts and is_text(keyf.body.elts[0], n.id)):
+                                bad.append((n, norm_text(x)[:60]))
+                        elif keyf is None:
+                            if elt is not None and is_text(elt, n.id):
+                                bad.append((n, norm_text(x)[:60]))
+                            elif elt is None and is_text(a0, n.id) and len(x.args) == 1:
+                                pass
+                            elif elt is None and len(x.args) > 1 and any(is_text(y, n.id) for y in x.args):
+                                bad.append((n, norm_text(x)[:60]))
+                            elif elt is None and isinstance(a0, ast.Name):
+                                # a list of candidates built by append: what is appended?
+                                apps = [c for c in g.calls() if isinstance(c.ast, ast.Call) and isinstance(c.ast.func, ast.Attribute)
+                                        and c.ast.func.attr == "append" and isinstance(c.ast.func.value, ast.Name) and c.ast.func.value.id == a0.id and c.ast.args]
+                                if any(is_text(c.ast.args[0], c.id) for c in apps):
+                                    bad.append((n, norm_text(x)[:60]))
+        seen_txt = set()
+        for n, txt in bad:
+            if txt in seen_txt:
+                continue
+            seen_txt.add(txt)
+            ctx.ob(rid, m, "the latest version is chosen by integer order, never by text", n, False,
+                   f"`{txt}` orders file names / version text: 'v9-...' sorts above 'v10-...', so a table with >= 10 versions and a lost "
+                   "pointer resolves to v9", text=txt)
+        if not bad:
+            ctx.ob(rid, m, "the latest version is chosen by integer order, never by text", None, True, "no ordering over text", text="order")
 
 
 def r12(ctx: Ctx, rid: str = "C10.R12") -> None:
@@ -457,6 +554,27 @@ def r12(ctx: Ctx, rid: str = "C10.R12") -> None:
            nontrivial=False)
 
 
+def mtime_is_untruncated(ctx: Ctx, rid: str = "C10.R20") -> None:
+    ctx.rule(rid, "recovery's tie-break sees the real modification time: LocalStorageBackend.get_modified_time returns "
+             "os.path.getmtime(...) / os.stat(...).st_mtime as it is - no int() / round() / floor / `//` around it (two metadata "
+             "files of one version written within the same second would tie, and the listing order - not the commit - would "
+             "decide which one hint-less recovery resolves)", 1)
+    f = ctx.fn("storage_backend.LocalStorageBackend.get_modified_time")
+    n = 0
+    for r, v in effective_returns(ctx, f):
+        for src, at in resolve_value(ctx, f, v, r.id):
+            n += 1
+            plain = (isinstance(src, ast.Call) and (dotted(src.func) or "").split(".")[-1] in ("getmtime",)) or \
+                (isinstance(src, ast.Attribute) and src.attr in ("st_mtime", "st_mtime_ns")) or \
+                (isinstance(src, ast.Call) and isinstance(src.func, ast.Name) and src.func.id == "float" and len(src.args) == 1 and (
+                    (isinstance(src.args[0], ast.Call) and (dotted(src.args[0].func) or "").split(".")[-1] == "getmtime")
+                    or (isinstance(src.args[0], ast.Attribute) and src.args[0].attr == "st_mtime")))
+            ctx.ob(rid, f, "the modification time is returned untruncated", r, plain,
+                   "os.path.getmtime as is" if plain else f"`{norm_text(src)[:60] if src is not None else None}` coarsens / transforms the mtime")
+    if n == 0:
+        raise AnalysisError("LocalStorageBackend.get_modified_time returns nothing")
+
+
 def pointer_publishes_fresh_version(ctx: Ctx, rid: str = "C10.R15") -> None:
     ctx.rule(rid, "the pointer only ever moves to the version just written: the name every pointer write publishes comes from "
              "_new_metadata_filename(...) in the same function (or from the caller, who is checked the same way) - never from "
@@ -470,6 +588,27 @@ def pointer_publishes_fresh_version(ctx: Ctx, rid: str = "C10.R15") -> None:
         org = ctx.slicer(f).origins(value, n.id) if value is not None else {"calls": set(), "params": set()}
         fresh = any(isinstance(c, ast.Call) and (dotted(c.func) or "").split(".")[-1] == "_new_metadata_filename" for c in org["calls"])
         via_param = bool(org["params"] - {"self"}) and f.qname in wq and bool(ctx.eff.call_sites.get(f.qname))
+        # ... and it is the BARE name the pointer parser understands, not a path / decorated string built around it
+        def bare(e: Optional[ast.AST], at: int, depth: int = 0) -> bool:
+            if e is None or depth > 5:
+                return False
+            if isinstance(e, ast.Call) and isinstance(e.func, ast.Attribute) and e.func.attr in ("encode", "strip") :
+                return bare(e.func.value, at, depth + 1)
+            if isinstance(e, ast.Call) and isinstance(e.func, ast.Name) and e.func.id in ("str", "bytes") and e.args:
+                return bare(e.args[0], at, depth + 1)
+            if isinstance(e, ast.Call):
+                return (dotted(e.func) or "").split(".")[-1] == "_new_metadata_filename"
+            if isinstance(e, ast.Name):
+                if any(p_.name == e.id for p_ in f.params) and ctx.cfg(f).entry in ctx.rd(f).reaching(at, e.id):
+                    return True
+                srcs = resolve_value(ctx, f, e, at)
+                return bool(srcs) and all(x is not e and bare(x, a, depth + 1) for x, a in srcs)
+            return False
+        if (fresh or via_param) and what == "pointer content" and value is not None and not bare(value, n.id):
+            ctx.ob(rid, f, what + " is the bare file name", n, False,
+                   f"`{norm_text(value)[:60]}` is not the plain name returned by _new_metadata_filename: the pointer parser rejects a "
+                   "decorated / path-prefixed name and every reader silently falls back to 'highest version on disk' - which during a "
+                   "commit is the writer's not-yet-committed file")
         ctx.ob(rid, f, what, n, fresh or via_param,
                "publishes the file this function just named with _new_metadata_filename" if fresh else
                ("publishes the name its caller passes (callers are checked)" if via_param else
